@@ -3,6 +3,7 @@ package main
 import (
 	"fmt"
 	"os"
+	"os/exec"
 	"path/filepath"
 	"strconv"
 	"sync"
@@ -16,6 +17,18 @@ func selftest(args []string) int {
 		infra("usage: verif selftest determinism [ids...]")
 	}
 	switch args[0] {
+	case "simnet":
+		// conformance of the simulated socket namespace with real unix sockets
+		scratch, bin := prepare("selftest")
+		defer cleanup(scratch)
+		cmd := exec.Command(bin, "-test.run", "^TestSimnetConformance$", "-test.v")
+		cmd.Env = append(os.Environ(), "VERIF_SIMNET=1")
+		out, err := cmd.CombinedOutput()
+		fmt.Print(string(out))
+		if err != nil {
+			return 2
+		}
+		return 0
 	case "determinism":
 		ids := args[1:]
 		if len(ids) == 0 {
